@@ -268,7 +268,8 @@ type zzKV struct{ k, v string }
 func VerifC01_BoltSlow() {
 	f := zzFrame("f", true)
 	ctx := zzCtx()
-	frame, err := boltProtocol{}.Decode(ctx, buffer.NewIoBufferBytes(verif.WithStaleCap(f, 64)))
+	rb := verif.WithStaleCap(f, 64)
+	frame, err := boltProtocol{}.Decode(ctx, buffer.NewIoBufferBytes(rb))
 	verif.Assert(frame != nil && err == nil, "well-formed frame must decode")
 	if frame == nil {
 		return
@@ -288,6 +289,7 @@ func VerifC01_BoltSlow() {
 	if d := xf.GetData(); d != nil {
 		body = append(body, d.Bytes()...)
 	}
+	verif.Havoc(rb) // the connection's read buffer is reused before the frame is forwarded
 	switch verif.Choose("op", 4) {
 	case 0: // set (existing or new key, decided by the symbolic key byte)
 		k := verif.Str("k", 1)
